@@ -19,11 +19,14 @@ class Timeout(Exception):
     pass
 
 
+ORACLE_ERRORS = []
+
+
 def _alarm(*a):
     raise Timeout()
 
 
-def guarded(oracle, inp, seconds=5):
+def guarded(oracle, inp, seconds=5, foreign=False):
     # the watchdog counts CPU time of this process (a loop that never ends burns CPU); wall-clock time would turn a busy
     # machine into `did not terminate`.  A generous wall-clock alarm stays as a backstop for waits that burn no CPU.
     signal.signal(signal.SIGPROF, _alarm)
@@ -35,9 +38,15 @@ def guarded(oracle, inp, seconds=5):
     except Timeout:
         return 'did not terminate within %ss of CPU time (watchdog)' % seconds
     except Exception as ex:      # the library raised where the property promises a result
-        import traceback
+        import traceback, os
         tb = traceback.extract_tb(ex.__traceback__)
         where = '%s:%s' % (tb[-1].filename.split('/')[-1], tb[-1].lineno) if tb else '?'
+        here = os.path.dirname(os.path.abspath(__file__))
+        if foreign and tb and os.path.dirname(os.path.abspath(tb[-1].filename)) == here and isinstance(ex, (KeyError, TypeError, IndexError, AttributeError, ValueError)):
+            # an input concretised from a solver model, and the stand-in's own code could not read it (written for another
+            # oracle, or outside this oracle's input language): says nothing about the library -- listed, never a failure
+            ORACLE_ERRORS.append('%s: %s (at %s) on %s' % (type(ex).__name__, str(ex)[:100], where, str(inp)[:120]))
+            return None
         return 'unexpected-exception: %s: %s (at %s)' % (type(ex).__name__, str(ex)[:200], where)
     finally:
         signal.setitimer(signal.ITIMER_PROF, 0)
@@ -90,11 +99,12 @@ def main(cases, oracle, bound, budget_s=(30, 300)):
         extra = [x for x in json.load(open(a.inputs)) if len(json.dumps(x)) <= 100000]
     import itertools
     keep = []            # sample of inputs evaluated a second time at the end: same input, different call history
+    n_extra = len(extra)
     for inp in itertools.chain(extra, cases(a.tier, rng)):
         n += 1
-        if len(keep) < 150 or n % 17 == 0:
+        if n > n_extra and (len(keep) < 150 or n % 17 == 0):
             keep.append(inp)
-        r = guarded(oracle, inp)
+        r = guarded(oracle, inp, foreign=(n <= n_extra))
         if r:
             cls = r.split(':')[0][:60]
             if cls not in seen:
@@ -122,5 +132,5 @@ def main(cases, oracle, bound, budget_s=(30, 300)):
             if time.process_time() - c1 > max(5, budget / 3):
                 break
     n += n2
-    print(json.dumps({'evaluations': n, 'second_pass': n2, 'failures': fails, 'bound': bound, 'wall_s': round(time.time() - t0, 2), 'cpu_s': round(time.process_time() - c0, 2),
+    print(json.dumps({'evaluations': n, 'second_pass': n2, 'oracle_errors': ORACLE_ERRORS[:5], 'failures': fails, 'bound': bound, 'wall_s': round(time.time() - t0, 2), 'cpu_s': round(time.process_time() - c0, 2),
                       'label': 'bounded', 'complete_sweep': complete}))
